@@ -69,27 +69,35 @@ Theorem shapley_all_length n g : length (sh_all n g) = n.
 Proof. exact (sh_all_length n g). Qed.
 Print Assumptions shapley_all_length.
 
-(* relabelling: swapping two neighbouring players j, j+1 (sh_swapp on players, sh_swapm = image of a coalition)
-   swaps their values; for every game, each n in 2..7 (reflection) *)
-Theorem shapley_relabel_adjacent n j i g :
+(* relabelling, for ALL n and EVERY permutation pi of the players 0..n-1 (given as a function; the hypothesis says
+   that pi permutes them): the relabelled game g o pi^-1 gives player pi(i) what g gives player i *)
+Theorem shapley_relabel n pi i g :
+  Permutation (seq 0 n) (map pi (seq 0 n)) -> (i < n)%nat ->
+  sh_player n (pi i) (sh_relabel_by n pi g) == sh_player n i g.
+Proof. intros H. exact (sh_relabel_all n pi H i g). Qed.
+Print Assumptions shapley_relabel.
+
+(* meaning of sh_relabel_by: the coalition pi(S) = { pi j | j in S } gets the value g S *)
+Theorem relabel_by_value n pi g S :
+  Permutation (seq 0 n) (map pi (seq 0 n)) -> bounded n S ->
+  sh_relabel_by n pi g (sh_mask (map pi (players n S))) = g S.
+Proof. intros H. exact (sh_relabel_by_image n pi H g S). Qed.
+Print Assumptions relabel_by_value.
+
+(* second, independent proof as planned in DESIGN 7 C06 (reflection, each n in 2..7): swapping two neighbouring
+   players j, j+1 (sh_swapp on players, sh_swapm = image of a coalition), closed under composition *)
+Theorem shapley_relabel_adjacent_by_reflection n j i g :
   (2 <= n <= 7)%nat -> (S j < n)%nat -> (i < n)%nat ->
   sh_player n (sh_swapp j (S j) i) (fun s => g (sh_swapm j (S j) s)) == sh_player n i g.
 Proof. exact (sh_relabel_adjacent n j i g). Qed.
-Print Assumptions shapley_relabel_adjacent.
+Print Assumptions shapley_relabel_adjacent_by_reflection.
 
-(* full statement (DESIGN 7 C06):
-     shapley_relabel n pi i g : 2 <= n <= 7 -> pi permutation of the players ->
-       sh_player n (pi i) (g o pi^-1) == sh_player n i g.
-   Proved: the same for every pi presented as a product of adjacent transpositions
-   pi = (j1 j1+1) o (j2 j2+1) o ...  (sh_actp js), with  g o pi^-1 = sh_relabel js g.
-   Missing: the (standard) fact that every permutation is such a product. *)
-Theorem shapley_relabel_partial n js i g :
+Theorem shapley_relabel_products_by_reflection n js i g :
   (2 <= n <= 7)%nat -> Forall (fun j => (S j < n)%nat) js -> (i < n)%nat ->
   sh_player n (sh_actp js i) (sh_relabel js g) == sh_player n i g.
 Proof. exact (sh_relabel_products n js i g). Qed.
-Print Assumptions shapley_relabel_partial.
+Print Assumptions shapley_relabel_products_by_reflection.
 
-(* meaning of the relabelling operators: pi(S) = { pi i | i in S }, and the relabelled game gives pi(S) the value g S *)
 Theorem relabel_membership js s i : tb (sh_actm js s) (sh_actp js i) = tb s i.
 Proof. exact (sh_actm_mem js s i). Qed.
 Print Assumptions relabel_membership.
@@ -129,6 +137,18 @@ Example c06_relabel_instance :
   map (sh_actp [0; 1]%nat) [0; 1; 2]%nat = [1; 2; 0]%nat /\
   map (fun i => Qred (sh_player 3 i (sh_relabel [0; 1]%nat c06_g3))) [1; 2; 0]%nat = [8 # 3; 25 # 6; 31 # 6].
 Proof. repeat split; try lia; try (repeat constructor; lia); vm_compute; reflexivity. Qed.
+
+(* the same 3-cycle as a function on players *)
+Definition c06_pi (i : nat) : nat := match i with 0 => 1 | 1 => 2 | _ => 0 end%nat.
+Example c06_relabel_by_instance :
+  Permutation (seq 0 3) (map c06_pi (seq 0 3)) /\
+  map (fun i => Qred (sh_player 3 (c06_pi i) (sh_relabel_by 3 c06_pi c06_g3))) [0; 1; 2]%nat = [8 # 3; 25 # 6; 31 # 6] /\
+  map (fun i => Qred (sh_player 3 i (sh_relabel_by 3 c06_pi c06_g3))) [0; 1; 2]%nat = [31 # 6; 8 # 3; 25 # 6].
+Proof.
+  split; [|split; vm_compute; reflexivity].
+  change (Permutation [0; 1; 2]%nat [1; 2; 0]%nat).
+  apply (Permutation_cons_app [1; 2]%nat []). apply Permutation_refl.
+Qed.
 
 Example c06_perms_3 : sh_perms 3 = [[0; 1; 2]; [1; 0; 2]; [1; 2; 0]; [0; 2; 1]; [2; 0; 1]; [2; 1; 0]]%nat.
 Proof. vm_compute. reflexivity. Qed.
